@@ -168,6 +168,12 @@ def compare(kind, exp, out, stats, req=None):
             return "model: hypotheses of reynolds_positions hold but the symmetrised positions are not exactly invariant"
         if mh == "1" and (minv != "1" or mstd != "1"):
             return "model: hypothesis of reynolds_moments_exact holds but the symmetrised moments are not exactly invariant"
+        if o.get("ctype") == ["4"]:
+            ah, ainv = o.get("ahyp", ["0", "0"])
+            stats["s6m_type4_hyp_anti"] += ah == "1"
+            stats["s6m_type4_anti_exactly_invariant"] += ainv == "1"
+            if ah == "1" and hc == "1" and hs == "1" and ainv != "1":
+                return "model: hypotheses of mag_positions_invariant hold but the positions are not exactly invariant under the anti-translation"
         if req is not None and "-disp" in req.split(" ", 2)[1]:
             stats["s6m_displaced_twins"] += 1
         return None
